@@ -450,7 +450,7 @@ def cases(ctx):
     quick = ctx.tier == "quick"
     i = 0
     import random as _r
-    nstreams = 6 if quick else 24
+    nstreams = 6 if quick else 60
     for fmt, mk in (("beast", beast_specs), ("beast_rssi", beast_specs), ("raw", raw_specs), ("sky", sky_specs)):
         for sidx in range(nstreams if fmt != "beast_rssi" else max(1, nstreams // 3)):
             srng = _r.Random((ctx.seed * 1000 + sidx) * 7 + len(fmt))   # identical stream on every shard
@@ -469,7 +469,7 @@ def cases(ctx):
                     yield "stream", {"kind": fmt, "specs": specs, "mode": "double", "range": [lo, lo + step]}
                 i += 1
     # more streams with single + random cuts only
-    for k in range(ctx.share(160 if quick else 1500)):
+    for k in range(ctx.share(160 if quick else 6000)):
         fmt, mk = rng.choice((("beast", beast_specs), ("beast", beast_specs), ("beast_rssi", beast_specs), ("raw", raw_specs), ("sky", sky_specs)))
         specs = mk(rng, rng.randint(3, 12))
         yield "stream", {"kind": fmt, "specs": specs, "mode": "single"}
@@ -494,7 +494,7 @@ def cases(ctx):
             batches.append(b)
         yield "netsource", {"batches": batches}
     # end-to-end sessions
-    for k in range(ctx.share(12 if quick else 200)):
+    for k in range(ctx.share(12 if quick else 400)):
         fmt, mk = (("beast", beast_specs), ("raw", raw_specs), ("sky", sky_specs))[(k + ctx.shard) % 3]
         specs = mk(rng, rng.randint(4, 10))
         stream = mk_stream(fmt, specs)[0]
